@@ -434,3 +434,107 @@ pub fn remove_call(p: &Program, j: usize) -> Option<Program> {
     Some(Program { calls })
 }
 
+
+
+/// Derived program for de-duplication / aliasing stress: the value calls of `p` (Add / Sub / Mul
+/// / MulAdd over inputs, constants and earlier results) are emitted twice — the second copy over
+/// FRESH public inputs — then every input of the copy is connected to its original (so the copy
+/// is an op-level duplicate that expression-level CSE cannot see), the copy's last result is
+/// pinned to one more public input `p`, and three consumers read `p`, the original result and the
+/// copy's operands: `p*i0`, `o*i0`, `o*i0'`, summed. `None` if `p` has no value call, uses
+/// private inputs, hints or assertions, or would exceed 255 handles.
+pub fn duplicate_with_aliases(p: &Program) -> Option<Program> {
+    #[derive(Clone, Copy)]
+    enum K {
+        Input,
+        Res,
+    }
+    let mut kinds: Vec<K> = vec![];
+    // pass 1: handle kinds and per-call operand handle indices of the original
+    let mut resolved: Vec<(Call, Vec<Opnd>)> = vec![];
+    for c in &p.calls {
+        if c.is_assert() || matches!(c, Call::Bits(..) | Call::Div(..) | Call::Horner(..) | Call::Select(..)) {
+            return None;
+        }
+        let mut ops = vec![];
+        for o in c.operands() {
+            match o {
+                Opnd::NewPriv => return None,
+                Opnd::NewPub => {
+                    kinds.push(K::Input);
+                    ops.push(Opnd::H((kinds.len() - 1) as u8));
+                }
+                other => ops.push(other),
+            }
+        }
+        kinds.push(K::Res);
+        resolved.push((c.clone(), ops));
+    }
+    let n0 = kinds.len();
+    if resolved.is_empty() || 2 * n0 + 8 > 250 {
+        return None;
+    }
+    let first_input = kinds.iter().position(|k| matches!(k, K::Input))?;
+    let last_res = n0 - 1;
+    let i0 = first_input as u8;
+    let mut calls: Vec<Call> = p.calls.clone();
+    // consumers recorded BEFORE the duplicate appears: m1 = pin * i0 (pin: a fresh public input
+    // that the duplicate's result will be connected to), m2 = o * i0
+    calls.push(Call::Mul(Opnd::NewPub, Opnd::H(i0)));
+    let pin = n0 as u8;
+    let m1 = pin + 1;
+    calls.push(Call::Mul(Opnd::H(last_res as u8), Opnd::H(i0)));
+    let m2 = m1 + 1;
+    let mut next = n0 + 3;
+    // the copy; map[h] = handle of the copy of original handle h
+    let mut map: Vec<Option<u8>> = vec![None; n0];
+    let mut res_idx = vec![];
+    {
+        let mut h = 0usize;
+        for (c, _) in &resolved {
+            for o in c.operands() {
+                if o == Opnd::NewPub {
+                    h += 1;
+                }
+            }
+            res_idx.push(h);
+            h += 1;
+        }
+    }
+    for ((c, ops), &orig_res) in resolved.iter().zip(res_idx.iter()) {
+        let mut new_ops = vec![];
+        for o in ops {
+            new_ops.push(match *o {
+                Opnd::H(i) => match (kinds[i as usize], map[i as usize]) {
+                    (_, Some(m)) => Opnd::H(m),
+                    (K::Input, None) => {
+                        map[i as usize] = Some(next as u8);
+                        next += 1;
+                        Opnd::NewPub
+                    }
+                    (K::Res, None) => return None,
+                },
+                other => other,
+            });
+        }
+        calls.push(c.with_operands(&new_ops));
+        map[orig_res] = Some(next as u8);
+        next += 1;
+    }
+    // connects: every copied input to its original, the copy's last result to `pin`
+    for i in 0..n0 {
+        if let (K::Input, Some(m)) = (kinds[i], map[i]) {
+            calls.push(Call::Connect(Opnd::H(i as u8), Opnd::H(m)));
+        }
+    }
+    let copy_res = map[last_res]?;
+    calls.push(Call::Connect(Opnd::H(copy_res), Opnd::H(pin)));
+    // a third op with the colliding key, and consumers of all three
+    let i0c = map[first_input]?;
+    calls.push(Call::Mul(Opnd::H(last_res as u8), Opnd::H(i0c)));
+    let m3 = next as u8;
+    calls.push(Call::Add(Opnd::H(m1), Opnd::H(m2)));
+    let s1 = m3 + 1;
+    calls.push(Call::Add(Opnd::H(s1), Opnd::H(m3)));
+    Some(Program { calls })
+}
